@@ -44,7 +44,7 @@ LEVEL = ('proof',
  'multi-file programs — every kind chain {literal, `::`/`:=` local, global before/after use, imported global through '
  '1–3 files with global / local / mutable import binding, extern, imported extern, comptime block, comptime parameter, '
  'arithmetic, call, struct member, paren, block, cast, cyclic globals, bool/str/char literals, type literal / type call '
- '/ type alias chains} to reference depth 1 (thorough: 2) × {array length, enum discriminant, comptime argument} × '
+ '/ type alias chains} to reference depth 2 (thorough: 3; deepened after seeded change C15_1) × {array length, enum discriminant, comptime argument} × '
  '{in main, inside a generic instantiation} × {with / without File-typed decoy locals}, plus random chains to depth 5 — '
  'compared with the model (diagnostic kinds, accepted value, panic, hang) and with an oracle written from the README '
  'rule (accepted ⇒ const by the rule and equal to the denoted value; non-const ⇒ reported).',
